@@ -83,9 +83,9 @@ func (v *VMValue) ArrayFuncKeepBase(ctx *Context, pickNum IntType, orderType int
 
 	num := float64(0)
 	for i := IntType(0); i < pickNum; i++ {
-		// 当取数大于上限 跳过
+		// 当取数大于上限 结束 (原先是 continue: [1].kh(9223372036854775807) 会空转到天荒地老，且不计入算力)
 		if i >= IntType(len(nums)) {
-			continue
+			break
 		}
 		num += nums[i]
 	}
